@@ -97,6 +97,10 @@ fn run_scenario(out: &mut Out, scn: &Value) {
     let mut vr = HashMap::new();
     let mut nr = HashMap::new();
     for (i, f) in feats.iter().enumerate() {
+        // a feature that does not count may be left out of the mappings altogether instead of being weighted zero
+        if scn["omit_zero"].as_bool().unwrap_or(false) && f["w"].as_f64().unwrap() == 0.0 {
+            continue;
+        }
         weights.insert(names[i].clone(), f["w"].as_f64().unwrap());
         vr.insert(names[i].clone(), vrate(&f["rate"]));
         nr.insert(names[i].clone(), nrate(&f["net"], this, 0, 1));
@@ -229,7 +233,7 @@ pub fn main(args: &[String]) -> i32 {
                 f[0]["w"] = json!(f[0]["w"].as_i64().unwrap() + 1);
             }
             let s = json!({"agg": if r.gen_bool(0.7) {"sum"} else {"mul"}, "prev": r.gen_bool(0.6),
-                           "dir": if r.gen_bool(0.6) {"fwd"} else {"rev"}, "F": f});
+                           "dir": if r.gen_bool(0.6) {"fwd"} else {"rev"}, "F": f, "omit_zero": r.gen_bool(0.4)});
             if charge_bound(&s) > 1.0e6 {
                 continue;
             }
